@@ -153,6 +153,13 @@ Theorem C13_model_ok : forall c, ok c (run c) = true.
 Proof. exact run_ok. Qed.
 Print Assumptions C13_model_ok.
 
+(* finite sweep (bound in the statement): for every schedule of length <= 9 and one small
+   configuration of each handshake the completion rounds of [run] bring the model to rest with
+   nothing left *)
+Theorem C13_run_comes_to_rest_sweep :
+  forallb (fun l => forallb (fun c => at_rest (run c)) (sweep_cases l)) (scheds_upto 9) = true.
+Proof. exact run_comes_to_rest_sweep. Qed.
+
 Theorem C13_oracle_sound : forall c o, ok c o = true <-> ok_P c o.
 Proof. exact ok_spec. Qed.
 Print Assumptions C13_oracle_sound.
